@@ -44,6 +44,10 @@ def run(ctx):
     rng = ctx.rng
     udiffs = C.unit_correspondence(ctx, kvh, C.gen_ops("gen_misc.py", ctx.seed, 400 if ctx.quick else 4000, prefixes=("sort_len_name", "cmp_len_name", "essential_check", "essential_check1")) +
                                    [l.strip() for l in open(os.path.join(C.CORPUS, "ops_misc.txt")) if l.startswith(("sort_len_name", "cmp_len_name", "essential_check"))], "canon")
+    kops = C.gen_ops("gen_kmeans.py", ctx.seed + 7, 1 if ctx.quick else 4)
+    if ctx.quick:
+        kops = [l for l in kops if not l.startswith("kmeans_tree")][:120] + [l for l in kops if l.startswith("kmeans_tree")][:10]
+    udiffs += C.unit_correspondence(ctx, kvh, kops, "kmeans")
     diffs = []
     groups = []
     for i in range(14 if ctx.quick else 120):
